@@ -20,7 +20,7 @@ func init() {
 	register("C03", func(c *Ctx) { runE2E(c, "C03") })
 	register("C01", func(c *Ctx) { runE2E(c, "C01"); runC01Race(c) })
 	register("C02", func(c *Ctx) { runE2E(c, "C02"); runC02Stage(c) })
-	register("C05", func(c *Ctx) { runE2E(c, "C05"); runC05Stage(c) })
+	register("C05", func(c *Ctx) { runE2E(c, "C05"); runC05Stage(c); runC05Cache(c) })
 	register("C08", func(c *Ctx) { runE2E(c, "C08") })
 	register("C06", func(c *Ctx) { runCrashEnum(c, "C06") })
 	register("C07", func(c *Ctx) { runCrashEnum(c, "C07") })
@@ -279,6 +279,10 @@ var accepts = map[string]map[string]bool{
 // boundary actions); then one run per chosen index crashes exactly there.
 func runCrashEnum(c *Ctx, prop string) {
 	nScen := c.N(6, 40)
+	nShapes := 6
+	if prop == "C07" {
+		nScen, nShapes = c.N(7, 42), 7
+	}
 	capK := c.N(170, 100000)
 	idx := 0
 	for sidx := 0; sidx < nScen; sidx++ {
@@ -290,7 +294,19 @@ func runCrashEnum(c *Ctx, prop string) {
 		sp0.Faults, sp0.Mutations, sp0.SenderCrashAt, sp0.RecvCrashAt = nil, nil, nil, nil
 		sp0.Conf.Tags[0].DeleteDelay = 0
 		// scenario shapes: single small file; multi-part; chain in one payload; renamed; deletion
-		switch sidx % 6 {
+		switch sidx % nShapes {
+		case 6:
+			// stale cache at restart: one file over several payloads (partly received
+			// at most crash points) and a dozen small ones that disappear from the
+			// outgoing directory while the sender is down
+			sp0.Files = []wsFile{{Name: "a.000.dat", Size: 4*sp0.Conf.PayloadSize + 33}}
+			for k := 1; k <= 12; k++ {
+				sp0.Files = append(sp0.Files, wsFile{Name: fmt.Sprintf("gone.%03d.dat", k), Size: int64(10 + srng.Intn(80))})
+				sp0.VanishAtCrash = append(sp0.VanishAtCrash, k)
+			}
+			sp0.Conf.Tags[0].Order = sts.OrderFIFO
+			sp0.Conf.Tags[0].Delete = false
+			sp0.Conf.Threads = 1
 		case 0:
 			sp0.Files = []wsFile{{Name: "a.000.dat", Size: 300}}
 		case 1:
